@@ -27,6 +27,15 @@ func init() {
 		},
 	})
 	register(&Rule{
+		ID: "SCAN-3",
+		Doc: "Every framing field gates acceptance on its own: inside a candidate loop, for every variable decoded from candidate bytes (address passed to binary.Read) that is compared with ==/!=, " +
+			"the loop's success return is unreachable once the 'equal' edge of that comparison is removed – i.e. a mismatch of that single field always rejects the candidate " +
+			"(conditions joined with && instead of || let a lookalike with one matching field through).",
+		Props: []string{"C05", "C19"},
+		Floor: 2,
+		Run:   ruleScan3,
+	})
+	register(&Rule{
 		ID: "SCAN-2",
 		Doc: "Inside a candidate loop, a make([]T, n) whose length derives from a variable filled from file bytes (address passed to binary.Read) is dominated by a " +
 			"comparison bounding that variable: a negative length panics, which also makes the reopen fail.",
@@ -435,4 +444,74 @@ func addrPassedToCall(a *ssa.Alloc) bool {
 	}
 	walkRefs(a, 0)
 	return found
+}
+
+func ruleScan3(c *Ctx) []*Ob {
+	o := newObs(c, "SCAN-3")
+	f := c.Fn("ScanFooter")
+	scc := largestSCC(f)
+	if scc == nil {
+		o.add("ScanFooter", "framing comparisons", c.pos(f.Pos()), false, "anchor lost: no candidate loop")
+		return o.list
+	}
+	// success returns: non-nil footer, nil error, leaving the loop
+	var succ []*ssa.Return
+	eachInstr(f, func(i ssa.Instruction) {
+		if r, ok := i.(*ssa.Return); ok && len(r.Results) == 2 && !returnsNil(r.Results[0]) && returnsNil(r.Results[1]) {
+			succ = append(succ, r)
+		}
+	})
+	decodedCell := func(v ssa.Value) *ssa.Alloc {
+		var cell *ssa.Alloc
+		backSlice(v, func(w ssa.Value) bool {
+			if ld, ok := w.(*ssa.UnOp); ok && ld.Op == token.MUL {
+				if a, ok := ld.X.(*ssa.Alloc); ok && addrPassedToCall(a) {
+					cell = a
+					return true
+				}
+			}
+			return false
+		})
+		return cell
+	}
+	for _, b := range f.Blocks {
+		if !scc[b] {
+			continue
+		}
+		iff, ok := b.Instrs[len(b.Instrs)-1].(*ssa.If)
+		if !ok {
+			continue
+		}
+		cmp, ok := iff.Cond.(*ssa.BinOp)
+		if !ok || (cmp.Op != token.EQL && cmp.Op != token.NEQ) {
+			continue
+		}
+		cell := decodedCell(cmp.X)
+		if cell == nil {
+			cell = decodedCell(cmp.Y)
+		}
+		if cell == nil {
+			continue
+		}
+		eqSucc := b.Succs[0]
+		if cmp.Op == token.NEQ {
+			eqSucc = b.Succs[1]
+		}
+		reach := false
+		for _, r := range succ {
+			rr := r
+			if !mustPrecede(f, rr, neverInstr, func(from, to *ssa.BasicBlock, cond ssa.Value, onTrue bool) bool {
+				return from == b && to == eqSucc
+			}) {
+				reach = true
+			}
+		}
+		name := cell.Comment
+		why := "a mismatch of " + name + " always rejects the candidate"
+		if reach {
+			why = "the candidate can still be accepted when " + name + " does not match (the mismatch only rejects in combination with another condition): a key or value shaped like a footer is taken for the store's footer"
+		}
+		o.add("ScanFooter", "framing field "+name+" gates acceptance", c.instrPos(iff), !reach, why)
+	}
+	return o.list
 }
